@@ -17,6 +17,9 @@ var props = map[string]runFn{}
 // childModes are re-executions of this binary as a workload process (crash harness)
 var childModes = map[string]func(){}
 
+// runSeed is the seed this run was started with (shards of a thorough run differ in it).
+var runSeed uint64
+
 func main() {
 	if len(os.Args) < 2 {
 		fmt.Fprintln(os.Stderr, "usage: run <prop> [-tier quick|thorough] [-seed N] [-out DIR] [extra...]")
@@ -44,6 +47,7 @@ func main() {
 	t := NewTrace(*out)
 	t.Set("seed", *seed)
 	t.Set("tier", *tier)
+	runSeed = *seed
 	fn(t, NewRng(*seed), *tier, fs.Args())
 	t.Close()
 }
